@@ -21,6 +21,7 @@ type situation struct {
 	cur    *channel.State
 	ownIdx int
 	phase  channel.Phase
+	accBase int // accept messages sent before the update under test
 }
 
 func indexMap() []channel.Index {
@@ -35,9 +36,11 @@ func newSituation(maxLocked int) *situation {
 }
 
 // newSituationWith lets the caller edit the current state before adoption.
-func newSituationWith(edit func(*channel.State)) *situation { return newSituationN(1, edit) }
+func newSituationWith(edit func(*channel.State)) *situation {
+	return newSituationN(1, func(s *situation) { edit(s.cur) })
+}
 
-func newSituationN(maxLocked int, edit func(*channel.State)) *situation {
+func newSituationN(maxLocked int, edit func(*situation)) *situation {
 	gen.K, gen.Exact = 1, true
 	s := &situation{w: cw.New(), ownIdx: rt.Choice(2)}
 	s.params = s.w.Params(s.ownIdx, 7, channel.NoApp(), false)
@@ -51,7 +54,7 @@ func newSituationN(maxLocked int, edit func(*channel.State)) *situation {
 		s.cur.IsFinal = true
 	}
 	if edit != nil {
-		edit(s.cur)
+		edit(s)
 	}
 	s.ch = s.w.Adopt(s.params, s.ownIdx, s.phase, s.cur, nil)
 	return s
